@@ -47,6 +47,20 @@ var c17Hosts = map[string]string{"s1": "one.example", "s2": "two.example"}
 
 func c17Gen(rng *rand.Rand, idx int, overlap bool) c17Scenario {
 	sc := c17Scenario{Idx: idx, FastIv: idx%4 == 3}
+	if idx < 3 {
+		// canonical: a drain with many requests that finish late (at 0.7 of the drain timeout) and one
+		// that never does: the command returns at the drain timeout, not later
+		mk := func(g int) []c17Target { return []c17Target{{Name: fmt.Sprintf("s1-g%d-t0:80", g), FailKind: "500"}} }
+		var fl []c03Inflight
+		for j := 0; j < 8; j++ {
+			fl = append(fl, c03Inflight{Kind: "early", Fin: 700*time.Millisecond + OffTarget})
+		}
+		fl = append(fl, c03Inflight{Kind: "never"})
+		second := []c17Cmd{{Kind: "pause", Svc: "s1", DrainTO: time.Second, Inflight: fl}, {Kind: "stop", Svc: "s1", DrainTO: time.Second, Inflight: fl},
+			{Kind: "deploy", Svc: "s1", Targets: mk(2), DeployTO: 30 * time.Second, DrainTO: time.Second, Inflight: fl}}[idx]
+		sc.Cmds = []c17Cmd{{Kind: "deploy", Svc: "s1", Targets: mk(1), DeployTO: 30 * time.Second, DrainTO: time.Second}, second}
+		return sc
+	}
 	n := 1 + rng.IntN(10)
 	exists := map[string]bool{}
 	gen := 0
